@@ -42,6 +42,8 @@ bool Value::extract_values(std::vector<std::vector<uint8_t>>& values) {
 }
 
 void Value::verify_sig(bool compact) {
+    // CPubKey verification needs the secp256k1 verification context; btcc has no Instance holding one
+    static ECCVerifyHandle verify_handle;
     // the value is a script-style push of the sighash, pubkey, and signature
     if (type != T_DATA) abort("invalid type (must be data)");
     std::vector<std::vector<uint8_t>> args;
